@@ -56,7 +56,7 @@ def spell(e, rng=None, top=True):
         s = "not" + sp() + (a if e[1][0] in ("id", "sel") else par(a))
     else:
         s = (sp() + e[0] + sp()).join(
-            spell(a, rng, False) if a[0] in ("id", "sel", "not") and (a[0] != "not" or e[0] != "x") else par(spell(a, rng, False))
+            spell(a, rng, False) if a[0] in ("id", "sel", "not") else par(spell(a, rng, False))
             for a in e[1])
     if rng is not None and rng.random() < 0.1:
         s = par(s)
@@ -149,6 +149,17 @@ def gen_refs(rng, rule_docs):
     return [rng.choice(pool) for _ in range(rng.choice([1, 1, 2, 3]))]
 
 
+def own_pats(rng, names, pool):
+    """patterns that select something among the given names, plus a few from the pool"""
+    out = ["them", "*"]
+    for n in names:
+        k = rng.randint(1, max(1, len(n) - 1))
+        out.append(n[:k] + "*")
+        out.append("*" + n[-rng.randint(1, 2):])
+    out = [p for p in out if re.fullmatch(r"[A-Za-z0-9_*]+", p)]
+    return out + rng.sample(pool, 3)
+
+
 def gen_pair(rng, hostile):
     ctr = Ctr()
     rn_pool = RNAMES + (RNAMES_HOSTILE if hostile else [])
@@ -162,7 +173,7 @@ def gen_pair(rng, hostile):
         names = rng.sample(rn_pool, rng.choice([1, 2, 2, 3, 3, 4]))
         dets = {n: det_body(ctr.next()) for n in names}
         nconds = 1 if rng.random() < 0.85 else 2
-        conds = [spell(gen_expr(rng, names, rp_pool, rng.choice([0, 1, 1, 2])), rng) for _ in range(nconds)]
+        conds = [spell(gen_expr(rng, names, own_pats(rng, names, rp_pool), rng.choice([0, 1, 1, 2])), rng) for _ in range(nconds)]
         if hostile and rng.random() < 0.04:
             conds[0] = rng.choice([names[0] + ") or (" + names[-1], "(" + names[0], names[0] + " and", "1 of nomatch*",
                                    names[0] + " | count() > 1", names[0] + " and 1 of zz*"])
@@ -174,7 +185,7 @@ def gen_pair(rng, hostile):
     for j in range(nfilters):
         names = rng.sample(fn_pool, rng.randint(1, 3 if nfilters < 3 else 2))
         dets = {n: det_body(ctr.next()) for n in names}
-        cond = spell(gen_expr(rng, names, fp_pool, rng.choice([0, 1, 1, 2]), pnot=0.4), rng)
+        cond = spell(gen_expr(rng, names, own_pats(rng, names, fp_pool), rng.choice([0, 1, 1, 2]), pnot=0.4), rng)
         fls = rng.choice(lss) if rng.random() < 0.8 else rng.choice(all_ls())
         filters.append(mk_filter("f%d" % j, fls, dets, cond, gen_refs(rng, rules)))
     docs = rules + filters
@@ -263,7 +274,7 @@ FORCED = ["aaaaaaaaaa", "aaaaaaaaaa", "aaaaaaaaaa", "bbbbbbbbbb", "bbbbbbbbbb", 
 
 def gen_apply(tier, rng):
     pairs = small_pairs() + ls_pairs() + hostile_pairs()
-    n = 40 if tier == "quick" else 900
+    n = 100 if tier == "quick" else 1500
     for i in range(n):
         pairs.append(gen_pair(rng, hostile=(i % 2 == 1)))
     out = []
